@@ -46,6 +46,36 @@ PROBES = {
                     "mw_python_fetch_language_names}) do for _, n in ipairs(names) do "
                     "local v = try(function() return h[n] end) if v ~= nil then hit = hit or ('ESCAPE:python-object:helper.' .. n) end end end "
                     "return hit or ('ok objs=' .. #objs)",
+    # Python exceptions reach pcall as objects; whatever they carry (the receiver of a failed attribute access, arguments,
+    # values) must not lead to the context: every helper that works offline is made to fail in many ways - wrong types, the current page's title
+    # under namespaces where it is not stored, absent pages - and the public attributes of each caught error object are walked
+    "exception-walk": "local helpers = {mw_python_get_page_info, mw_python_get_page_content, mw_python_fetch_language_name, "
+                      "mw_python_fetch_language_names, mw_jsondecode_python, mw_jsonencode_python, mw_decode_python, mw_encode_python, "
+                      "mw_language_format_date_python, mw_current_title_python, current_frame_python, _python_top_env} "
+                      "local cur = try(mw_current_title_python) or 'Tt' "
+                      "local argsets = {{}, {{}}, {cur}, {cur, 0}, {cur, 10}, {cur, 828}, {cur, 2}, {cur, 100}, {cur, 'x'}, {'Nosuch', 10}, "
+                      "{1, 2, 3}, {'x', 'y', 'z'}, {true}, {function() end}, {cur, {}}, {{}, cur}} "
+                      "local objs = {} "
+                      "local function grab(f, ...) local ok, e = pcall(f, ...) if not ok and type(e) == 'userdata' then objs[#objs + 1] = e end end "
+                      "for i = 1, 12 do local h = helpers[i] if h ~= nil then for _, a in ipairs(argsets) do grab(h, unpack(a)) end end end "
+                      "grab(frame.expandTemplate, frame, {title = cur, args = 'abc'}) grab(frame.callParserFunction, frame, {name = 7}) "
+                      "grab(frame.preprocess, frame, {}) grab(frame.extensionTag, frame, {}) grab(frame.newChild, frame, 7) "
+                      "local t = try(function() return mw.title.new(cur) end) if t then grab(function() return t:getContent() end) end "
+                      "local t2 = try(function() return mw.title.getCurrentTitle() end) if t2 then grab(function() return t2:getContent() end) end "
+                      "local marks = {'add_page', 'db_conn', 'lua', 'expand', 'start_page', 'parser_stack', 'globals', 'eval', 'execute', 'db_path'} "
+                      "local attrs = {'obj', 'args', 'name', 'value', 'object', 'key', 'path', 'filename', 'filename2', 'reason', 'msg', 'doc', "
+                      "'text', 'code', 'errno', 'strerror', 'start', 'stop'} "
+                      "local function sus(o) if type(o) ~= 'userdata' then return nil end "
+                      "for _, m in ipairs(marks) do local v = try(function() return o[m] end) if v ~= nil then return m end end return nil end "
+                      "local hit = nil "
+                      "for _, o in ipairs(objs) do "
+                      "local m = sus(o) if m then hit = hit or ('ESCAPE:python-object:exception.' .. m) end "
+                      "for _, a in ipairs(attrs) do local v = try(function() return o[a] end) "
+                      "local m2 = sus(v) if m2 then hit = hit or ('ESCAPE:python-object:exception.' .. a .. '.' .. m2) end "
+                      "if type(v) == 'userdata' then for i = 0, 3 do local w = try(function() return v[i] end) "
+                      "local m3 = sus(w) if m3 then hit = hit or ('ESCAPE:python-object:exception.' .. a .. '[' .. i .. '].' .. m3) end end end "
+                      "end end "
+                      "return hit or ('ok objs=' .. #objs)",
     # two invocations: the first leaves placeholder globals named after host libraries wherever it can write (the base
     # environment _lua_reset_env returns, its own environment, package.loaded); the second looks at what became of them
     "seq1-plant-placeholders": "local n = 0 local targets = {} "
